@@ -671,7 +671,7 @@ def to_coq(case, obs):
         parts.append(table_expr(rows, it["eps"], it["t"], it["in_cells"], mods))
         parts.append(extract_expr(mods, [c["rect"] for c in it["in_cells"]],
                                   {m["name"]: it["a"][m["name"]] for m in mods}, it["x"], it["y"], it["t"], it["aeps"],
-                                  it["out"], obs["die"], exact_ok=False, k=64))
+                                  it.get("out"), obs["die"], exact_ok=False, k=64))
     return " && ".join(f"({p})" for p in parts) if parts else "true"
 
 
